@@ -75,3 +75,35 @@ def rule_dimbound(crate):
     out.analysed = {"dtype_uses_on_success_paths": n}
     out.floor("dtype_uses_on_success_paths", n, 2)
     return out
+
+
+def rule_hasfield(crate):
+    """HASFIELD — a field-access constraint is solved as soon as the struct constructor is known.  Requiring the whole
+    struct type to be closed rejects every field access on a generic struct whose type argument is still open
+    (`P { x: 0 }.x`, `fn get(v) = P { x: v }.x`), while the annotated twin is accepted: a consistent program is rejected
+    and adding/removing annotations changes acceptance."""
+    from hirlib import pat_variants
+
+    out = RuleOut("HASFIELD", "HasField constraints do not wait for the struct type to be closed")
+    fn = crate.find_fn("constraints::Constraint::try_satisfy")
+    f = crate.file_of(fn)
+    n = 0
+    for m in walk(fn["body"]):
+        if m.get("k") != "Match" or str(m.get("src")) != "Normal":
+            continue
+        for a in m["arms"]:
+            if pat_variants(a["pat"], "crate::typechecker::constraints::Constraint") != {"HasField"}:
+                continue
+            n += 1
+            af, al = crate.loc(fn, a["pat"])
+            solves = any(y.get("k") in ("Call", "MethodCall") and "Satisfied" in (callee(y) or "") for y in walk(a["body"]))
+            if not solves:
+                continue
+            closed = "guard" in a and any(y.get("k") == "MethodCall" and y["name"] == "is_closed" for y in walk(a["guard"]))
+            if closed:
+                out.violation("try_satisfy:HasField:waits-for-closed", af, al, "the arm that solves HasField is guarded by `struct_type.is_closed()`: with an open type argument the constraint is never solved — `struct P<D: Dim> { x: D }`, `let p0 = P { x: 0 }`, `p0.x + 1 m` is rejected with 'Could not solve … HasField(P<T376> …)'")
+            else:
+                out.ok("try_satisfy:HasField:waits-for-closed", af, al, "solved whenever the struct constructor is known")
+    out.analysed = {"hasfield_arms": n}
+    out.floor("hasfield_arms", n, 1)
+    return out
